@@ -84,3 +84,40 @@ Print Assumptions c20_forest_parents_in_range.
 Theorem c20_axis_index_in_range : ltac:(reexport NV.C02.Properties.input_axis_index_negative_in_range).
 Proof. exact NV.C02.Properties.input_axis_index_negative_in_range. Qed.
 Print Assumptions c20_axis_index_in_range.
+
+(* ---- the two Cython kernels compiled without bounds checks, over the access
+   traces / index arithmetic translated from the current .pyx text
+   (Generated/PyxKernels.v, coq/C20/Kernels.v) ---- *)
+From Coq Require Import ZArith List.
+From NV.Generated Require PyxKernels.
+From NV.C20 Require Kernels KernelsProofs.
+
+(* _graph.pyx dilation: for every compact-neighbour table that is well formed for a
+   V-vertex graph, every raw access of the loop nest (superset over both branches
+   of each `if`, hence for every field content) lies inside its array *)
+Theorem c20_dilation_accesses_in_bounds : forall V D idx neighb,
+  Kernels.wf_csr V idx neighb ->
+  Forall (Kernels.in_bounds V D idx neighb) (PyxKernels.src_dilation_trace V D idx neighb).
+Proof. exact KernelsProofs.dilation_trace_in_bounds. Qed.
+Print Assumptions c20_dilation_accesses_in_bounds.
+
+(* the boolean table contract the harness evaluates on the tables nipy really builds is the hypothesis above *)
+Theorem c20_dilation_table_contract_sound : forall V idx neighb,
+  Kernels.wf_csrb V idx neighb = true -> Kernels.wf_csr V idx neighb.
+Proof. exact KernelsProofs.wf_csrb_sound. Qed.
+Print Assumptions c20_dilation_table_contract_sound.
+
+(* histogram.pyx: for every non-empty input of non-negative values the pointer
+   writes stay inside the allocated bins (the checked model never faults), the
+   result has src_hist_nbins(max) cells and bin v holds the number of occurrences of v *)
+Theorem c20_histogram_in_bounds_and_counts : forall xs,
+  xs <> nil -> (forall x, In x xs -> (0 <= x)%Z) ->
+  exists h, Kernels.histogram xs = Kernels.HOk h /\
+            Z.of_nat (length h) = PyxKernels.src_hist_nbins (Kernels.zmax xs) /\
+            forall v, (0 <= v)%Z -> nth (Z.to_nat v) h 0%Z = Kernels.zcount xs v.
+Proof. exact KernelsProofs.histogram_in_bounds_and_counts. Qed.
+Print Assumptions c20_histogram_in_bounds_and_counts.
+
+Theorem c20_histogram_empty_refused : Kernels.histogram nil = Kernels.HRefused.
+Proof. exact KernelsProofs.histogram_empty_refused. Qed.
+Print Assumptions c20_histogram_empty_refused.
